@@ -141,6 +141,13 @@ def rate_order(t, n):
     return (n - 16) + 7 + (8 - (t - 7))
 
 
+def small_crc32(r):
+    """a CRC-32 value of a last block: mostly any non-zero value, one in three with one to three leading zero octets (a value that
+    fits fewer than four octets - conversions that drop leading zero octets take such a value out of the CRC-9's input)"""
+    k = r.randrange(6)
+    return r.randrange(1, 1 << 32) if k < 4 else r.randrange(1, 1 << (8 * r.choice([1, 2, 3])))
+
+
 def cases():
     from bitarray import bitarray
     from okdmr.dmrlib.etsi.layer2.elements.slcos import SLCOs
@@ -185,7 +192,7 @@ def cases():
             t = getattr(T, typ)
             out.append(Case(f"{nm}/{typ}", "crc", 9, (7, 16),
                             (lambda C_, t_, dl_, last: lambda r: C_(data=gen.rbytes(r, dl_), packet_type=t_, dbsn=r.randrange(128),
-                                                                      crc32=(r.randrange(1, 1 << 32) if last else 0)))(C, t, dl, typ.endswith("LastBlock")),
+                                                                      crc32=(small_crc32(r) if last else 0)))(C, t, dl, typ.endswith("LastBlock")),
                             lambda o: o.as_bits(), (lambda C_, t_: lambda b: C_.from_bits_typed(b, t_))(C, t), lambda o: o.crc9_ok,
                             order=rate_order))
 
@@ -336,6 +343,20 @@ def corrupt_case(args):
                     b.invert(t)
                 rec(pattern, classify(case, fields(case.parse(sent.copy())), b), nbits, not b[lo:hi].any())
                 aimed[0] += 1
+        if case.name.endswith("ConfirmedLastBlock") and n == 0:
+            # aimed: an error that sets one bit inside the leading zero octets of a small CRC-32 (the last four octets of the block)
+            # escapes a CRC-9 computed without those octets with probability 2^-9 - several thousand such errors make that visible
+            for _ in range(160 if quick else 1500):
+                o2 = case.build(rng)
+                while o2.crc32 >> 24:
+                    o2 = case.build(rng)
+                b2 = case.ser(o2)
+                base2 = fields(case.parse(b2.copy()))
+                for t in range(len(b2) - 32, len(b2)):
+                    if not b2[t]:
+                        bb = b2.copy()
+                        bb.invert(t)
+                        rec([t], classify(case, base2, bb), len(b2), not bb[lo:hi].any())
         # aimed at the all-zero check field: flip exactly the set bits of the check field (+ one more bit)
         setbits = [t for t in range(lo, hi) if bits[t]]
         if setbits:
